@@ -3,13 +3,12 @@
 //@ requires-unit: schema_helper
 //@ requires-unit: compression_helper
 //@ requires-unit: ser_cells
-//@ anchor: serde_avro_fast/src/object_container_file_encoding/writer/mod.rs :: pub fn serialize<T: Serialize>\(&mut self, value: T\) -> Result<\(\), SerError> \{\n\t\tself.flush_finished_block
+//@ anchor: serde_avro_fast/src/object_container_file_encoding/writer/mod.rs :: {2} fn serialize<T: Serialize>\(&mut self, value: T\) -> Result<\(\), SerError> \{
 //@ anchor: serde_avro_fast/src/object_container_file_encoding/writer/mod.rs :: pub fn push_serialized\(
-//@ anchor: serde_avro_fast/src/object_container_file_encoding/writer/mod.rs :: pub fn finish_block\(&mut self\) -> Result<\(\), SerError> \{\n\t\tself.inner.finish_block
+//@ anchor: serde_avro_fast/src/object_container_file_encoding/writer/mod.rs :: {2} fn finish_block\(&mut self\) -> Result<\(\), SerError> \{
 //@ anchor: serde_avro_fast/src/object_container_file_encoding/writer/mod.rs :: fn flush_finished_block\(&mut self\) -> Result<\(\), SerError>
 //@ anchor: serde_avro_fast/src/object_container_file_encoding/writer/mod.rs :: pub fn into_inner\(mut self\) -> Result<W, SerError>
 //@ anchor: serde_avro_fast/src/object_container_file_encoding/writer/mod.rs :: impl<'c, 's, W: Write> Drop for Writer<'c, 's, W>
-//@ anchor: serde_avro_fast/src/object_container_file_encoding/writer/mod.rs :: fn finish_block\(&mut self\) -> Result<\(\), SerError> \{\n\t\tif self.n_elements_in_block > 0
 //@ include: spec
 //@ include: common
 
